@@ -16,7 +16,8 @@ def one(sid):
     subprocess.run(['git', '-C', '/repo', 'worktree', 'add', '-q', '--detach', wt, 'HEAD'], check=True)
     out = []
     try:
-        subprocess.run(['git', '-C', wt, 'apply', f'/verif/seeded/{sid}/patch.diff'], check=True)
+        if subprocess.run(['git', '-C', wt, 'apply', f'/verif/seeded/{sid}/patch.diff']).returncode != 0:
+            return [(sid, 'PATCH-DOES-NOT-APPLY', 2)]
         for c in meta['caught_by']:
             p = subprocess.run(['./check', c, '--tier', 'quick', '--no-evidence'], cwd='/verif', capture_output=True,
                                text=True, env=dict(os.environ, VERIF_SEED=seed, VERIF_REPO=wt))
